@@ -560,30 +560,26 @@ class Manager(metaclass=Singleton):
 #    @deprecated
     def cu_energy(self,val,units="1/cm"):
         """Converst to current energy units
-        
+
         """
         if units in self.units["energy"]:
-            x = conversion_facs_energy[units]
-            i_val = x*val
-            
-            cu = self.current_units["energy"] 
-            if cu != "1/fs":
-                y = conversion_facs_energy[units] 
-                return i_val/y
-                
-            return i_val
-            
-#    @deprecated       
+            # through internal units to the units which are current now
+            return self.convert_energy_2_current_u(self.iu_energy(val, units))
+
+
     def iu_energy(self,val,units="1/cm"):
         """Converst to internal energy units
-        
+
         """
         if units in self.units["energy"]:
             x = conversion_facs_energy[units]
+            if units == "nm":
+                # wavelength is inversely proportional to energy
+                return (1.0/val)/x
             i_val = x*val
             return i_val    
-            
-            
+
+
     def convert_energy_2_internal_u(self,val):
         """Convert energy from currently used units to internal units
         
